@@ -12,7 +12,7 @@ SCRATCH=$(mktemp -d "${TMPDIR:-/tmp}/verif-conc-XXXXXX") || { echo "cannot creat
 trap 'rm -rf "$SCRATCH"' EXIT
 mkdir -p $VERIF/bin $VERIF/evidence $VERIF/replays
 (cd $VERIF/conc/instrument && go build -o $VERIF/bin/instrument .) || { echo "BUILD FAILED: instrumenter" >&2; exit 2; }
-$VERIF/bin/instrument /repo "$SCRATCH/src" $VERIF/conc/rt $VERIF/conc/harness > "$SCRATCH/instrument.log" 2>&1 || { cat "$SCRATCH/instrument.log" >&2; echo "INSTRUMENTATION FAILED (exit 2)" >&2; exit 2; }
+$VERIF/bin/instrument "${VERIF_REPO:-/repo}" "$SCRATCH/src" $VERIF/conc/rt $VERIF/conc/harness > "$SCRATCH/instrument.log" 2>&1 || { cat "$SCRATCH/instrument.log" >&2; echo "INSTRUMENTATION FAILED (exit 2)" >&2; exit 2; }
 SITES=$(grep -o '[0-9]* yield sites' "$SCRATCH/instrument.log" | cut -d' ' -f1)
 (cd "$SCRATCH/src" && go build -o "$SCRATCH/concrun" ./zz_sim/concrun) > "$SCRATCH/build.log" 2>&1 || { cat "$SCRATCH/build.log" >&2; echo "BUILD FAILED (exit 2)" >&2; exit 2; }
 (cd "$SCRATCH/src" && go build -race -o "$SCRATCH/concrun-race" ./zz_sim/concrun) > "$SCRATCH/build-race.log" 2>&1 || { cat "$SCRATCH/build-race.log" >&2; echo "BUILD FAILED (race) (exit 2)" >&2; exit 2; }
